@@ -1,6 +1,7 @@
 package main
 
 import (
+	"regexp"
 	"fmt"
 	"go/ast"
 	"go/token"
@@ -70,6 +71,8 @@ func (p *Prog) VerifyFunc(fi *FuncInfo, spec *FuncSpec) (res *FuncResult) {
 	}
 	return res
 }
+
+var reCallerFresh = regexp.MustCompile(`^callerfresh\((\w+)\)$`)
 
 func (p *Prog) verifyFunc(fi *FuncInfo, spec *FuncSpec, degraded bool, unroll ...int) (res *FuncResult) {
 	res = &FuncResult{Key: fi.FullKey(), Spec: spec}
@@ -240,6 +243,14 @@ func (p *Prog) verifyFunc(fi *FuncInfo, spec *FuncSpec, degraded bool, unroll ..
 	var reqs []string
 	for _, r := range spec.Requires {
 		if !vc.wanted(r.Props) {
+			continue
+		}
+		if m := reCallerFresh.FindStringSubmatch(r.Text); m != nil && strings.TrimSpace(r.Text) == m[0] {
+			// `requires callerfresh(p)` is an obligation of the caller (the object is its own, unshared allocation);
+			// inside the callee it licenses writes to p even if p's type is declared immutable
+			if t, ok := vc.paramTerm[m[1]]; ok {
+				vc.constructing = append(vc.constructing, t.S)
+			}
 			continue
 		}
 		f := env.evalBool(r.Expr)
